@@ -9,7 +9,7 @@ DESCRIPTION = {
              "limit; raises ApplicationError / a define()d class / an undefined exception / an exception with unserializable args; returns a pending result resolved or failed "
              "later; a 'shielded' asynchronous endpoint that swallows cancellation and still returns a value (Deferred errback / coroutine catching CancelledError); "
              "emits 0-3 progress results first}, several concurrent INVOCATIONs (receive_progress on/off, caller details on/off, args/kwargs shapes), resolve/fail of pending "
-             "results, INTERRUPT at every point (pending, after completion, unknown id, and in the *same read* as its INVOCATION so that no event-loop turn separates them) and unrelated "
+             "results, INTERRUPT at every point (pending, after completion, unknown id, and in the *same read* as its INVOCATION so that no event-loop turn separates them) unregistration of a procedure while its invocations are still running, and unrelated "
              "traffic.  Oracle: for every invocation id, while the transport is up, the bytes "
              "written to the router decode to exactly one terminal message with that id - a non-progress YIELD carrying the return value, or ERROR(INVOCATION,id,uri) with "
              "wamp.error.invalid_payload / payload_size_exceeded in the two send-failure cases - never zero, never two; progressive YIELDs only before it and only if "
@@ -49,6 +49,7 @@ def strategy(kind):
         st.tuples(st.just("invoke"), st.integers(0, 2), vals, kws, st.booleans(), st.just(True)),   # INVOCATION and INTERRUPT arrive in one read
         st.tuples(st.just("resolve"), st.integers(0, 5), st.sampled_from(["ok", "fail", "fail-undefined", "unserializable"])),
         st.tuples(st.just("interrupt"), st.integers(0, 8), st.sampled_from(["pending", "done", "unknown"])),
+        st.tuples(st.just("unregister"), st.integers(0, 2)),
         st.tuples(st.just("event")))
     return st.fixed_dictionaries({
         "ser": st.sampled_from(["json", "msgpack", "cbor", "ubjson"]), "limit_exp": st.sampled_from([1, 1, 2, 3, 15] if kind == "rs" else [15]),
@@ -89,10 +90,13 @@ class World:
         if ("join",) not in self.events or self.sess is None:
             raise HarnessError("session did not join: %r" % (self.events,))
         self.reg_ids = []
+        self.regs = {}
+        self.unregistered = set()
         for k, (beh, details, nprog) in enumerate(c["procs"]):
             fn = self.make_endpoint(k, beh, details, nprog)
             opt = RegisterOptions(details=True) if (details or beh == "progress") else None
-            self.tx.d.call(lambda fn=fn, k=k, opt=opt: self.sess.register(fn, "com.myapp.proc%d" % k, opt))
+            fut = self.tx.d.call(lambda fn=fn, k=k, opt=opt: self.sess.register(fn, "com.myapp.proc%d" % k, opt))
+            txaio.add_callbacks(fut, lambda reg, k=k: self.regs.__setitem__(k, reg), None)
             msgs = self.tx.recv_raw()
             if len(msgs) != 1 or msgs[0][0] != 64:
                 raise HarnessError("REGISTER expected, got %r" % (msgs,))
@@ -193,7 +197,21 @@ class World:
         if self.tx.ep.drop_requested:
             raise Violation("C10|transport-dropped-by-session", "events %r" % (self.events[-3:],), self.c)
 
+    def do_unregister(self, k):
+        """the application unregisters procedure k (the router confirms); invocations already running must still be answered"""
+        if k in self.unregistered or k not in self.regs:
+            return
+        self.unregistered.add(k)
+        self.tx.d.call(lambda: self.regs[k].unregister())
+        msgs = self.tx.recv_raw()
+        if len(msgs) != 1 or msgs[0][0] != 66 or msgs[0][2] != self.reg_ids[k]:
+            raise Violation("C10|unregister-not-sent", repr(msgs), self.c)
+        self.tx.send_raw([67, msgs[0][1]])
+        self.collect()
+
     def do_invoke(self, k, args, kwargs, rp, with_interrupt=False):
+        if k in self.unregistered:
+            return
         beh, details, nprog = self.c["procs"][k]
         self.next_inv += 1
         iid = self.next_inv
@@ -409,7 +427,8 @@ def histories(col, seed, n, kind):
         w = check_history(c)
         behs = set(i["beh"] for i in w.invs)
         nt = len(w.invs) >= 2 or bool(behs & {"unserializable", "oversized", "raise-unserializable-args"}) or any(s[0] == "interrupt" and s[2] == "pending" for s in c["steps"]) or any(s[0] == "invoke" and len(s) > 5 for s in c["steps"])
-        col.case(nt, dig=c, cls=["tx:%s" % kind, "ser:" + c["ser"]] + ["beh:" + b for b in sorted(behs)] + (["invocation+interrupt-in-one-read"] if any(s[0] == "invoke" and len(s) > 5 for s in c["steps"]) else []) + (["limit:%s" % (w.limit,)] if w.limit else []) +
+        col.case(nt, dig=c, cls=["tx:%s" % kind, "ser:" + c["ser"]] + ["beh:" + b for b in sorted(behs)] + (["invocation+interrupt-in-one-read"] if any(s[0] == "invoke" and len(s) > 5 for s in c["steps"]) else []) + (["unregister-while-pending"] if w.unregistered and any(
+                     i["beh"] in ("pending", "shielded") for i in w.invs if i["proc"] in w.unregistered) else []) + (["limit:%s" % (w.limit,)] if w.limit else []) +
                  (["concurrent>=2"] if sum(1 for i in w.invs if i["beh"] == "pending") >= 2 else []),
                  sample={"procs": c["procs"], "steps": c["steps"], "ser": c["ser"], "limit": w.limit})
     run_hypothesis(col, "hist", strategy(kind), body, n, seed)
